@@ -64,3 +64,14 @@ chk("C03", "exploration",
     "Trusted: nothing but the laws themselves and exact Fraction arithmetic; tolerance 64 eps x (|value| + zero-point magnitudes / "
     "target scale). 32-bit data restricted to scale ranges that cannot overflow float32.",
     "Hypothesis law/metamorphic testing (round trip, composition, route differential) + exhaustive temperature table", "DESIGN.md §3 C03")
+chk("C04", "exploration",
+    "Hypothesis-generated straight-line programs (2-4 leaves, up to 10 further steps, ~60 operation spellings incl. in-place, "
+    "out=, reductions/accumulate/outer, dot family, powers/roots, trig of angles, comparisons, divmod, deliberately invalid "
+    "steps) over leaves in units constructed per dimension. After every instruction the library register is compared with a "
+    "reference interpreter working on SI magnitudes and dimension vectors with a propagated forward error bound; sums must be "
+    "labelled with the left operand's unit. One program in four runs in a power-of-64 custom registry and is re-run with every "
+    "leaf re-expressed: the two runs must denote bit-identical SI magnitudes (exact covariance, also for // and %).",
+    "Trusted: dimension vectors from vf/oracle/table.py; leaf and result scales read from the library as data (C02/C05 judge "
+    "them); registers downstream of a discontinuity/singularity hit are not value-judged; unit-rule lru caches are reset before "
+    "each dyadic case (they are keyed by approximate Unit equality). Temperature refusals are C08's.",
+    "Hypothesis program generation vs reference interpreter (SI model) + bit-exact metamorphic re-expression", "DESIGN.md §3 C04")
